@@ -349,6 +349,29 @@ def rule_arg_capture(ctx: Ctx, repo: Repo) -> None:
                           "get_type receives the tracer's max_typed_dict_size", construct=f"get_type(.., {e[2]})")
 
 
+def rule_no_overwrite(ctx: Ctx, repo: Repo) -> None:
+    """R-C02.3: a 'call' event of a frame that already has an in-flight trace (resumption after a yield / await,
+    or an exception thrown into the suspended frame) never replaces or mutates that trace."""
+    _, call_points = corpus_points()
+    fi = repo.method(repo.cls(M, "CallTracer"), "handle_call")
+    fname = fi.positional_params()[1]
+    locs = R("dict", items=((K("x"), S("val:x")), (K("y"), S("val:y")), (K("i"), S("val:i"))))
+    n = 0
+    for p in call_points:
+        for rate, draw in ((None, None), (1, 0), (3, 0)):
+            sc = TracerScenario(repo, "handle_call", {"sample_rate": K(rate)}, trace_in_table=_trace(), func_value=S("func"),
+                                draw=K(draw) if draw is not None else None, cache_hit=True)
+            outs = sc.run({fname: frame_value(p, f_locals=locs)})
+            if len(outs) != 1:
+                raise AnalysisError("handle_call forked")
+            effs = relevant(outs[0].effects)
+            bad = [e for e in effs if (e[0] in ("setitem", "delitem") and e[1] == "self.traces") or e[0].startswith("trace.") or e[0] == "setattr" or e[0].startswith("logger.")]
+            n += 1
+            ctx.check(not bad, "R-C02.3", fi.fq, "a call event of a frame with an in-flight trace leaves that trace untouched",
+                      construct=f"{p.kind} at {p.opname} (rate={rate}): {[e[0] for e in bad]}")
+    ctx.floor("R-C02.3", "call events of already-traced frames", n, 60)
+
+
 def rule_dispatch(ctx: Ctx, repo: Repo) -> None:
     """R-C02.7: __call__ dispatches `call` events to handle_call only and `return` events to
     handle_return only, with the event's own frame and arg."""
@@ -395,4 +418,5 @@ def run(ctx: Ctx, repo: Repo, tier: str) -> None:
     rule_who_may_write(ctx, repo)
     rule_attribution(ctx, repo)
     rule_arg_capture(ctx, repo)
+    rule_no_overwrite(ctx, repo)
     rule_dispatch(ctx, repo)
